@@ -70,9 +70,10 @@ func main() {
 
 		return &ast.BasicLit{Kind: token.STRING, Value: strconv.Quote(fmt.Sprintf("%s:%d", short, p.Line))}
 	}
-	sel := func(name string) ast.Expr {
-		return &ast.SelectorExpr{X: ast.NewIdent("zzxsched"), Sel: ast.NewIdent(name)}
+	selAt := func(name string, pos token.Pos) ast.Expr {
+		return &ast.SelectorExpr{X: &ast.Ident{Name: "zzxsched", NamePos: pos}, Sel: &ast.Ident{Name: name, NamePos: pos}}
 	}
+	sel := func(name string) ast.Expr { return selAt(name, token.NoPos) }
 
 	// 2. go statements.
 	var rewriteBlock func(list []ast.Stmt) []ast.Stmt
@@ -149,13 +150,27 @@ func main() {
 
 				continue
 			}
+			if cc, ok := s.(*ast.CaseClause); ok {
+				cc.Body = rewriteBlock(cc.Body)
+				out = append(out, s)
+
+				continue
+			}
+			if cc, ok := s.(*ast.CommClause); ok {
+				cc.Body = rewriteBlock(cc.Body)
+				out = append(out, s)
+
+				continue
+			}
 			if inPoints {
 				switch s.(type) {
 				case *ast.DeclStmt, *ast.LabeledStmt, *ast.BranchStmt, *ast.EmptyStmt:
 				default:
 					if hasCall(s) {
 						needSched = true
-						out = append(out, &ast.ExprStmt{X: &ast.CallExpr{Fun: sel("Yield"), Args: []ast.Expr{label(s.Pos())}}})
+						lb := label(s.Pos())
+						lb.ValuePos = s.Pos()
+						out = append(out, &ast.ExprStmt{X: &ast.CallExpr{Fun: selAt("Yield", s.Pos()), Lparen: s.Pos(), Args: []ast.Expr{lb}, Rparen: s.Pos()}})
 					}
 				}
 			}
